@@ -26,7 +26,7 @@ FUNCTIONS = ['pymeeus/Sun.py:Sun.get_equinox_solstice', 'pymeeus/Sun.py:Sun.equa
              'pymeeus/Epoch.py:Epoch.__iadd__', 'pymeeus/Epoch.py:Epoch.__isub__']
 
 MANIFEST = dict(
-    text=("Lean 4 theorems (Props/C14.lean, 34) about the real-arithmetic model of Sun.get_equinox_solstice, "
+    text=("Lean 4 theorems (Props/C14.lean, 40) about the real-arithmetic model of Sun.get_equinox_solstice, "
           "Sun.equation_of_time, Epoch.rise_set and times_rise_transit_set: ValueError exactly outside years "
           "-1000..3000 and for a bad target, Meeus' tables 27.A/27.B selected as documented; for ANY solar "
           "longitude function, if the season loop exits the returned instant is the last one the longitude was "
@@ -43,7 +43,10 @@ MANIFEST = dict(
           "measured); the direction of the season correction; the mean longitude L0 of equation_of_time is Meeus 28.2 "
           "coefficient by coefficient and the returned (m, s) are those of 4(L0 - 0.0057183 - alpha + dpsi cos eps) reduced "
           "to +-720 min; the interpolation uses differences wrapped to +-180 degrees for all tabular values; the "
-          "refinement is the second iterate; the latitude and negative-height guards of rise_set. "
+          "refinement is the second iterate, its transit correction is -H/360 with H in +-180 degrees; the latitude and "
+          "negative-height guards of rise_set; rise_set depends on the civil day of the epoch only; at the returned hour "
+          "angle the sunrise equation's own Sun is exactly at the standard altitude (equatorial2horizontal's formula), and "
+          "so is a body at the start estimates of times_rise_transit_set; ZeroDivisionError at a pole. "
           "The model's binary64 instantiation agrees with CPython bit for bit on every sampled call (the season loop "
           "both fed the solar longitudes the implementation saw and run from the year alone on the C08 model of the "
           "Sun's apparent position). All numerical clauses (1e-5 degree, 88-95 d, "
